@@ -42,10 +42,11 @@ def _sigs_from_impl(rf, header_pat):
         yield ty, sigs
 
 
-def generate(assume_some=None, custom=None):
+def generate(assume_some=None, custom=None, requires=None):
     """assume_some: {(Type, accessor): tag} -> the accessor additionally `ensures r is Some` (assumed-parser / known finding)"""
     assume_some = assume_some or {}
     custom = custom or {}
+    requires = requires or {}
     used_some = set()
     nodes = RustFile(os.path.join(REPO, R, 'generated/nodes.rs'))
     tokens = RustFile(os.path.join(REPO, R, 'generated/tokens.rs'))
@@ -87,14 +88,28 @@ def generate(assume_some=None, custom=None):
                 if rty == '::std::string::String':
                     spec_decl = "    pub uninterp spec fn sp_%s(&self) -> Seq<char>;" % name
                     ens.append("r@ == self.sp_%s()" % name)
+                mch = re.match(r'^AstChildren<(\w+)>$', rty)
+                if mch:
+                    # children of an immutable node: a function of the node, in source order
+                    spec_decl = "    pub uninterp spec fn sp_%s(&self) -> Seq<%s>;" % (name, mch.group(1))
+                    ens.append("r.rest() == self.sp_%s()" % name)
+                if rty == 'TokenText' and name == 'text':
+                    # HasTextNode: `string()` is `self.text().to_string()` (node_ext.rs)
+                    ens.append("r.chars() == self.sp_string()")
                 if (ty, name) in assume_some:
                     ens.append("r is Some /* %s */" % assume_some[(ty, name)])
                     used_some.add((ty, name))
                 if (ty, name) in custom:
                     ens.append("%s /* %s */" % custom[(ty, name)])
                     used_some.add((ty, name))
-                if ens:
-                    rest = "(&self) -> (r: %s) ensures %s" % (rty, ', '.join(ens))
+                req = ''
+                if (ty, name) in requires:
+                    # a hand-written accessor that panics: its guard is a precondition (callers must establish it)
+                    spec_decl = (spec_decl + "\n" if spec_decl else "") + "    pub uninterp spec fn sp_%s_ok(&self) -> bool;" % name
+                    req = " requires self.sp_%s_ok() /* %s */," % (name, requires[(ty, name)])
+                    used_some.add((ty, name))
+                if ens or req:
+                    rest = "(&self) -> (r: %s)%s%s" % (rty, req, (' ensures ' + ', '.join(ens)) if ens else '')
             if spec_decl:
                 lines.append(spec_decl)
             lines.append("    #[verifier::external_body] pub fn %s%s { unimplemented!() }" % (name, rest))
@@ -127,7 +142,7 @@ def generate(assume_some=None, custom=None):
         out.append("impl std::clone::Clone for %s { #[verifier::external_body] fn clone(&self) -> (r: Self) ensures r == *self { unimplemented!() } }" % en)
         out.append("impl vstd::std_specs::fmt::DebugSpecImpl for %s { open spec fn fmt_req(&self, f: &std::fmt::Formatter<'_>) -> bool { true } }" % en)
         out.append("impl std::fmt::Debug for %s { #[verifier::external_body] fn fmt(&self, f: &mut std::fmt::Formatter<'_>) -> std::fmt::Result { unimplemented!() } }" % en)
-    missing = (set(assume_some) | set(custom)) - used_some
+    missing = (set(assume_some) | set(custom) | set(requires)) - used_some
     if missing:
         from .unit import Undecided
         raise Undecided('assumed-parser accessors not found in the AST: %s' % sorted(missing))
